@@ -1,0 +1,87 @@
+//go:build verif
+
+package lossy
+
+// Add-only exports for /verif (properties C04, C06). Not part of the package API.
+
+// VerifDecodeFrame decodes a VP8 key frame and returns copies of the cropped
+// planes. With unfiltered set, the loop filter is switched off after header
+// parsing, so the planes are the reconstruction before in-loop deblocking
+// produced by the same parsing and reconstruction code.
+func VerifDecodeFrame(data []byte, unfiltered bool) (w, h int, y, u, v []byte, err error) {
+	dec := acquireDecoder()
+	defer ReleaseDecoder(dec)
+	if err = dec.parseHeaders(data); err != nil {
+		return
+	}
+	w, h = dec.picHdr.Width, dec.picHdr.Height
+	if err = dec.initFrame(); err != nil {
+		return
+	}
+	if unfiltered {
+		dec.filterType = 0
+	}
+	dec.precomputeFilterStrengths()
+	if err = dec.parseFrame(); err != nil {
+		return
+	}
+	cw, ch := (w+1)/2, (h+1)/2
+	y = make([]byte, 0, w*h)
+	for j := 0; j < h; j++ {
+		y = append(y, dec.cacheY[j*dec.cacheYStride:j*dec.cacheYStride+w]...)
+	}
+	u = make([]byte, 0, cw*ch)
+	v = make([]byte, 0, cw*ch)
+	for j := 0; j < ch; j++ {
+		u = append(u, dec.cacheU[j*dec.cacheUVStride:j*dec.cacheUVStride+cw]...)
+		v = append(v, dec.cacheV[j*dec.cacheUVStride:j*dec.cacheUVStride+cw]...)
+	}
+	return
+}
+
+// VerifFrameInfo reports header fields of a VP8 key frame as the decoder parsed them.
+type VerifFrameInfo struct {
+	Width, Height    int
+	UseSegment       bool
+	UpdateMap        bool
+	AbsoluteDelta    bool
+	Quantizer        [4]int
+	FilterStrength   [4]int
+	Simple           bool
+	Level, Sharpness int
+	UseLFDelta       bool
+	RefLFDelta       [4]int
+	ModeLFDelta      [4]int
+	NumParts         int
+	UseSkipProba     bool
+	Dqm              [4][6]int // y1dc y1ac y2dc y2ac uvdc uvac
+	FStrengths       [4][2][3]int // limit, ilevel, hev
+}
+
+func VerifParseHeaders(data []byte) (VerifFrameInfo, error) {
+	var fi VerifFrameInfo
+	dec := acquireDecoder()
+	defer ReleaseDecoder(dec)
+	if err := dec.parseHeaders(data); err != nil {
+		return fi, err
+	}
+	dec.precomputeFilterStrengths()
+	fi.Width, fi.Height = dec.picHdr.Width, dec.picHdr.Height
+	fi.UseSegment, fi.UpdateMap, fi.AbsoluteDelta = dec.segHdr.UseSegment, dec.segHdr.UpdateMap, dec.segHdr.AbsoluteDelta
+	for i := 0; i < 4; i++ {
+		fi.Quantizer[i] = int(dec.segHdr.Quantizer[i])
+		fi.FilterStrength[i] = int(dec.segHdr.FilterStrength[i])
+		fi.RefLFDelta[i] = dec.filterHdr.RefLFDelta[i]
+		fi.ModeLFDelta[i] = dec.filterHdr.ModeLFDelta[i]
+		m := dec.dqm[i]
+		fi.Dqm[i] = [6]int{m.Y1Mat[0], m.Y1Mat[1], m.Y2Mat[0], m.Y2Mat[1], m.UVMat[0], m.UVMat[1]}
+		for k := 0; k < 2; k++ {
+			f := dec.fstrengths[i][k]
+			fi.FStrengths[i][k] = [3]int{int(f.FLimit), int(f.FILevel), int(f.HevThresh)}
+		}
+	}
+	fi.Simple, fi.Level, fi.Sharpness, fi.UseLFDelta = dec.filterHdr.Simple, dec.filterHdr.Level, dec.filterHdr.Sharpness, dec.filterHdr.UseLFDelta
+	fi.NumParts = int(dec.numPartsMinusOne) + 1
+	fi.UseSkipProba = dec.useSkipProba
+	return fi, nil
+}
